@@ -15,6 +15,8 @@
 package token
 
 import (
+	"unicode/utf8"
+
 	"github.com/blugelabs/bluge/analysis"
 )
 
@@ -24,9 +26,10 @@ func (p *Parser) buildTokenFromTerm(buffer []rune) *analysis.Token {
 		Term:         term,
 		PositionIncr: 1,
 		Start:        p.index,
-		End:          p.index + len(term),
+		End:          p.index + p.bufferWidth,
 	}
-	p.index += len(term)
+	p.index += p.bufferWidth
+	p.bufferWidth = 0
 	return token
 }
 
@@ -37,11 +40,12 @@ func (p *Parser) buildTokenFromTerm(buffer []rune) *analysis.Token {
 // Parser accumulates a new resulting token every time it switches state.
 // Use FlushTokens() to get the results after the last symbol was pushed.
 type Parser struct {
-	bufferLen int
-	buffer    []rune
-	current   State
-	tokens    []*analysis.Token
-	index     int
+	bufferLen   int
+	buffer      []rune
+	bufferWidth int // bytes the buffered runes occupy in the source
+	current     State
+	tokens      []*analysis.Token
+	index       int
 }
 
 func NewParser(length, index int) *Parser {
@@ -54,6 +58,16 @@ func NewParser(length, index int) *Parser {
 }
 
 func (p *Parser) Push(sym rune, peek *rune) {
+	width := utf8.RuneLen(sym)
+	if width < 0 {
+		// not a valid rune, encoded as utf8.RuneError
+		width = utf8.RuneLen(utf8.RuneError)
+	}
+	p.push(sym, width, peek)
+}
+
+// push is Push for a symbol which occupies width bytes in the source
+func (p *Parser) push(sym rune, width int, peek *rune) {
 	if p.current == nil {
 		// the start of parsing
 		p.current = p.NewState(sym)
@@ -70,6 +84,7 @@ func (p *Parser) Push(sym rune, peek *rune) {
 		p.buffer = make([]rune, 0, p.bufferLen)
 		p.buffer = append(p.buffer, sym)
 	}
+	p.bufferWidth += width
 }
 
 // Note. States have to have different starting symbols.
